@@ -40,7 +40,7 @@ ASSUMPTIONS = [
     "fp->float->fp identity is required only when the fixed-point value "
     "divided by 2**n_frac is exactly representable in float64",
 ]
-FLOORS = {"scalar_exact": 5000, "numpy_vs_scalar": 3000,
+FLOORS = {"large_array_layout": 40, "converter_reused": 2000, "scalar_exact": 5000, "numpy_vs_scalar": 3000,
           "deprecated_vs_scalar": 3000, "inverse_exact": 500,
           "saturated_high": 200, "saturated_low": 200}
 SHARDS = {"quick": 16, "thorough": 64}
